@@ -189,13 +189,24 @@ def _fuzzy(tree):
     import importlib
     import scrapli.ssh_config as mod
     mod = importlib.reload(mod) if getattr(mod, "_c16_stale", False) else mod
-    fn = _fn(_cls(tree, "SSHConfig"), "_lookup_fuzzy_match")
-    fallback = None
-    for n in ast.walk(fn):
-        if isinstance(n, ast.Return) and isinstance(n.value, ast.IfExp) and isinstance(n.value.orelse, ast.Constant):
-            fallback = n.value.orelse.value
-    if not isinstance(fallback, str):
-        raise TranslateError("_lookup_fuzzy_match: fallback key literal not found")
+    # the key returned when no pattern is a candidate, and the tie-break among equal scores: obtained by CALLING the real
+    # function on probe tables (not by matching the shape of its return statement)
+    def call(name, keys):
+        obj = mod.SSHConfig.__new__(mod.SSHConfig)
+        table = {k: mod.Host() for k in keys}
+        obj.hosts = dict(table)
+        try:
+            return obj._lookup_fuzzy_match(name, hosts=table)
+        except Exception as e:  # noqa
+            raise TranslateError(f"_lookup_fuzzy_match({name!r}, {keys!r}) raised {e!r} while probing")
+    fallbacks = {call(n, ks) for n, ks in (("probe", ["zzz"]), ("", ["q"]), ("abc", ["abd", "x y"]), ("h", ["hh"]))}
+    if len(fallbacks) != 1 or not isinstance(next(iter(fallbacks)), str):
+        raise TranslateError(f"_lookup_fuzzy_match: no unique fallback key when nothing matches: {fallbacks!r}")
+    fallback = fallbacks.pop()
+    ties = {(call("ab", ["a?", "?b"]), call("ab", ["?b", "a?"]), call("ab", ["a? zz", "ab*", "?b"]), call("xay", ["a", "x?y", "*"]))}
+    tie = {("a?", "?b", "ab*", "a"): "first", ("?b", "a?", "ab*", "a"): "last"}.get(ties.pop())
+    if tie is None:
+        raise TranslateError("_lookup_fuzzy_match: the choice among candidates is neither first nor last minimum of captured characters")
     proxy = _ReProxy()
 
     def f(s):
@@ -255,7 +266,7 @@ def _fuzzy(tree):
         raise TranslateError(f"_lookup_fuzzy_match: flags {proxy.flags} / matching functions {proxy.fns} not unique")
     flags = re.RegexFlag(proxy.flags.pop())
     flag_names = sorted(x.name for x in re.RegexFlag if x.value and x in flags and x.name)
-    return dict(many=many, one=one, escaped=escaped, meta=meta, search_fn=proxy.fns.pop(), flags=flag_names, fallback=fallback)
+    return dict(many=many, one=one, escaped=escaped, meta=meta, search_fn=proxy.fns.pop(), flags=flag_names, fallback=fallback, tie=tie)
 
 
 def _star_keys(tree):
@@ -270,6 +281,16 @@ def _star_keys(tree):
         if isinstance(n, ast.Assign) and isinstance(n.targets[0], ast.Attribute) and n.targets[0].attr == "hosts" \
                 and isinstance(n.targets[0].value, ast.Subscript) and isinstance(n.value, ast.Constant):
             keys.add(n.value.value)
+    return keys
+
+
+def _star_keys_probed():
+    """the key (and its `hosts` attribute) of the entry SSHConfig creates when the file has no `Host *` / there is no file"""
+    import scrapli.ssh_config as mod
+    o = mod.SSHConfig("")
+    keys = set(o.hosts) | {h.hosts for h in o.hosts.values()}
+    if len(o.hosts) != 1:
+        raise TranslateError(f"SSHConfig(''): expected exactly the catch-all entry, got {list(o.hosts)}")
     return keys
 
 
@@ -329,6 +350,39 @@ def _lookup_writes(tree, cls_name, entry):
             continue
         seen.add(m)
         fn = methods[m]
+        # aliases: every local name assigned (also through for / with / walrus) from an expression rooted at a shared name is
+        # shared too (h = self.hosts; e = self.hosts[k]; for k, e in self.hosts.items()) -- iterate to a fixed point
+        local_shared = set(shared)
+        changed = True
+        while changed:
+            changed = False
+            for n in ast.walk(fn):
+                pairs = []
+                if isinstance(n, ast.Assign):
+                    pairs = [(t, n.value) for t in n.targets]
+                elif isinstance(n, (ast.AnnAssign, ast.NamedExpr)) and n.value is not None:
+                    pairs = [(n.target, n.value)]
+                elif isinstance(n, (ast.For, ast.comprehension)):
+                    pairs = [(n.target, n.iter)]
+                elif isinstance(n, ast.withitem) and n.optional_vars is not None:
+                    pairs = [(n.optional_vars, n.context_expr)]
+                for t, v in pairs:
+                    roots = {x.id for x in ast.walk(v) if isinstance(x, ast.Name)}
+                    # `hosts = hosts or self.hosts` style: any shared name anywhere in the value
+                    if roots & local_shared:
+                        for x in ast.walk(t):
+                            if isinstance(x, ast.Name) and x.id not in local_shared:
+                                local_shared.add(x.id)
+                                changed = True
+        for n in ast.walk(fn):
+            # a module-level helper FUNCTION handed a shared object could mutate it: not followed -> refuse to call it pure
+            if isinstance(n, ast.Call) and isinstance(n.func, ast.Name) and n.func.id in module_names \
+                    and isinstance(next((x for x in tree.body if getattr(x, "name", None) == n.func.id), None), ast.FunctionDef):
+                args = list(n.args) + [k.value for k in n.keywords]
+                if any(isinstance(x, ast.Name) and x.id in local_shared for a in args for x in ast.walk(a)):
+                    raise TranslateError(f"{cls_name}.{m} passes a shared object to the module-level function {n.func.id}(): "
+                                         "its stores are not followed")
+        shared_here = local_shared
         for d in fn.decorator_list:
             txt = ast.unparse(d)
             if "cache" in txt.lower() or "memo" in txt.lower():
@@ -349,14 +403,14 @@ def _lookup_writes(tree, cls_name, entry):
             for t in targets:
                 flat += list(t.elts) if isinstance(t, (ast.Tuple, ast.List)) else [t]
             for t in flat:
-                if isinstance(t, (ast.Attribute, ast.Subscript)) and _root(t) in shared:
+                if isinstance(t, (ast.Attribute, ast.Subscript)) and _root(t) in shared_here:
                     out.append(f"{m}:{ast.unparse(t)}")
             if isinstance(n, ast.Call):
                 f = n.func
                 if isinstance(f, ast.Attribute) and f.attr in MUTATORS and isinstance(f.value, (ast.Attribute, ast.Subscript)) \
-                        and _root(f.value) in shared:
+                        and _root(f.value) in shared_here:
                     out.append(f"{m}:{ast.unparse(f)}()")
-                if isinstance(f, ast.Name) and f.id in ("setattr", "delattr") and n.args and _root(n.args[0]) in shared:
+                if isinstance(f, ast.Name) and f.id in ("setattr", "delattr") and n.args and _root(n.args[0]) in shared_here:
                     out.append(f"{m}:{ast.unparse(n)}")
     return sorted(set(out))
 
@@ -415,7 +469,7 @@ def generate():
         if attr not in dflt:
             raise TranslateError(f"_parse sets unknown Host attribute {attr}")
     fz = _fuzzy(tree)
-    stars = _star_keys(tree) | {fz["fallback"]}
+    stars = _star_keys(tree) | {fz["fallback"]} | _star_keys_probed()
     if len(stars) != 1:
         raise TranslateError(f"catch-all key literals differ: {sorted(stars)}")
     star = stars.pop()
@@ -445,7 +499,9 @@ def generate():
     b += f"def regexMeta : List Char := [{', '.join(char(c) for c in fz['meta'])}]\n"
     b += f"def searchFn : String := {lstr(fz['search_fn'])}\n"
     b += f"def searchFlags : List String := [{', '.join(lstr(x) for x in fz['flags'])}]\n"
-    b += "/-- the key of the catch-all entry (the same literal in __init__ and _lookup_fuzzy_match) -/\n"
+    b += "/-- which candidate wins among equal numbers of captured characters (probed by calling the function) -/\n"
+    b += f"def tieBreak : String := {lstr(fz['tie'])}\n"
+    b += "/-- the key of the catch-all entry (the same in __init__ and as the answer of _lookup_fuzzy_match without candidates) -/\n"
     b += f"def starKey : Str := {chars(star)}\n"
     b += "/-- SSHKnownHosts -/\n"
     b += f"def hashedPrefix : Str := {chars(kh['prefix'])}\ndef hashSep : Char := {char(kh['sep'])}\n"
